@@ -141,6 +141,14 @@ prop("C06",
      note=NETWORLD)
 
 
+prop("C10",
+     title="Search streams deliver the server's items in order and obey the state machine",
+     rule="streams lane: a reference model of the documented SearchStream state machine (Active -> Done -> Closed, Error after a failure; next() outside Active = Ok(None); finish() = server result iff read to the end, else rc 88; second finish rc 80) is executed in lock step with the real stream for a random client call sequence over next/finish/state (calls after the end, early finish at every position, repeated finish, random mixes), on direct streams, EntriesOnly, a user-defined pass-through adapter and chains of 1-3 of them; server item sequences of 0-30 entries/references/intermediates with per-item controls, result codes 0..123, optional connection loss after k items; every return value and every state() must equal the model's. search_collect lane: search() must return exactly the entries in order with referral URIs appended to refs in arrival order and intermediates dropped. distinct = distinct (stream kind, item count, fault point, call script)",
+     claim="held on every generated stream history of this run (counts per stream kind, early finishes and connection losses in the evidence)",
+     design="3/C10", technique="lock-step executable model of the stream state machine against the real SearchStream over scripted item sequences",
+     note=NETWORLD)
+
+
 # ---- properties not (yet) claimed ----
 def _na():
     out = []
